@@ -107,6 +107,13 @@ int main(int argc, char** argv) {
     std::vector<std::vector<double>> special;
     { std::vector<double> e1(d), e2(d), e3(d); for (int i = 0; i < d; i++) { e1[i] = 1e3 * (i + 1) * (i % 2 ? -1 : 1); e2[i] = 1e-6 * (i * i + 1); e3[i] = std::sqrt(2.0 + 3 * i) - 1.7; } special = {e1, e2, e3}; }
     for (auto& E : special) { if ((caseno++ % ar.nshards) != ar.shard) continue; for (double t : T) check_case(d, E, t, al, true); check_group(d, E, T, al); }
+    // reciprocal scalings: the evolution depends on the products (E_j-E_k)*t only, so (S*E, t/S) must give what (E, t) gives -- for
+    // very small |t| with a very wide spectrum and for very large |t| with a very narrow one
+    for (double S : {1e16, 1e-16, 1.152921504606847e18, 1e100, 1e-100, 4e17}) for (int which = 0; which < 2; which++) {
+      if ((caseno++ % ar.nshards) != ar.shard) continue;
+      std::vector<double> E(d); for (int i = 0; i < d; i++) E[i] = S * (which ? lev[(i * 2 + 1) % lev.size()] + 0.25 * i : std::sqrt(2.0 + 3 * i) - 1.7);
+      for (double t : {0.3, -2.5, 1.0, 9e-1, 7.0}) check_case(d, E, t / S, al, false);
+    }
   }
   finish();
   return 0;
